@@ -101,8 +101,9 @@ def gen_case(rng, n_ops=None, invalid_rate=0.15, pf_level=True):
     quotes = {}
     # symbols are arbitrary strings: some books use lower / mixed case, and symbols that differ in case only
     pool = ASSETS if rng.random() < 0.7 else ['EQ:agg', 'Brk.b', 'EQ:AGG', 'spy']
+    twins = rng.random() < 0.25       # several assets quoted identically (equal holdings then have bit-identical values)
     for a in pool[:rng.randint(2, 4)]:
-        bid, ask = gen_quote(rng)
+        bid, ask = gen_quote(rng) if not (twins and quotes) else list(quotes.values())[0]
         ops.append(['px', a, bid, ask])
         quotes[a] = (bid, ask)
     for pid in PIDS[:rng.randint(1, 3)]:
@@ -172,6 +173,11 @@ def gen_case(rng, n_ops=None, invalid_rate=0.15, pf_level=True):
             ops.append(['submit', pid, a, int(q)] + ([dup, own] if own is not None else [dup] if dup is not None else []))
             if pid in pfs and a != 'UUU':
                 pfs[pid]['pend'].append((a, q))
+                if twins and rng.random() < 0.5:
+                    b_ = rng.choice(list(quotes))
+                    if b_ != a:
+                        ops.append(['submit', pid, b_, int(q)])      # the same order in an identically quoted asset
+                        pfs[pid]['pend'].append((b_, q))
         elif k < 0.70:
             a = rng.choice(list(quotes))
             bid, ask = gen_quote(rng)
@@ -235,4 +241,36 @@ def gen_case(rng, n_ops=None, invalid_rate=0.15, pf_level=True):
                 pfs[pid]['held'][a] = pfs[pid]['held'].get(a, 0) + q
             if t > now:
                 pass
+    return case
+
+
+def gen_unquoted_case(rng):
+    """a held asset loses its quote (a gap in its data) while orders in other, quoted assets are pending: the update still fills
+    them.  Judged by the oracle only (a holding marked without a price is outside the model)."""
+    start = MON + rng.randrange(0, 5) * 86400 + 52200 + rng.choice([0, 60, 3600])
+    case = dict(start=start, funds=1e6, fee=gen_fee(rng), np_quotes=rng.random() < 0.8, ops=[], tzmix=False, cur='USD', oracle_only=True)
+    ops = case['ops']
+    names = ASSETS[:rng.randint(2, 4)]
+    for a in names:
+        bid, ask = gen_quote(rng)
+        ops.append(['px', a, bid, ask])
+    for pid in PIDS[:rng.randint(1, 2)]:
+        ops.append(['create', pid])
+        ops.append(['subP', pid, 4e5])
+    held = rng.choice(names)
+    ops.append(['submit', '1', held, rng.choice([1, 10, 100]) * rng.choice([1, -1])])
+    t = start + rng.choice([0, 60])
+    ops.append(['update', t])
+    ops.append(['unpx', held])
+    others = [a for a in names if a != held]
+    for _ in range(rng.randint(1, 3)):
+        ops.append(['submit', rng.choice(['1', '1', '2']) if len([o for o in ops if o[0] == 'create']) > 1 else '1', rng.choice(others),
+                    rng.choice([1, 7, 50]) * rng.choice([1, -1])])
+    t += rng.choice([60, 3600, 86400])
+    ops.append(['update', t])
+    if rng.random() < 0.5:
+        bid, ask = gen_quote(rng)
+        ops.append(['px', held, bid, ask])
+        ops.append(['submit', '1', rng.choice(names), rng.choice([1, 5])])
+        ops.append(['update', t + 60])
     return case
